@@ -139,6 +139,36 @@ def one_case(arg):
                                         {"repo": [seed, idx], "kind": kind, "diffs": bad[:5]}))
                 out["sample"] = {"modes": sorted(outs), "kind": kind, "unique_commit_count": js.get("unique_commit_count"),
                                  "replace_refs": [r for r in m.refs if r.startswith("refs/replace/")][:2]}
+        # --- explicit ROOTs that navigate THROUGH replaced / grafted objects (rev~1, rev^, rev^{tree}): what they name
+        # must be decided on the stored objects as well
+        if kind != "none":
+            grafted = set()
+            gp = os.path.join(gitdir, "info", "grafts")
+            if os.path.exists(gp):
+                grafted = {ln.split()[0] for ln in open(gp).read().splitlines() if ln.strip()}
+            replaced = {r[len("refs/replace/"):] for r in m.refs if r.startswith("refs/replace/")}
+            for c in m.commits:
+                if c.oid not in grafted and c.oid not in replaced:
+                    continue
+                cases_ = [(c.oid + "^{tree}", c.tree)]
+                if c.parents:
+                    cases_ += [(c.oid + "~1", c.parents[0]), (c.oid + "^", c.parents[0])]
+                    if len(c.parents) > 1:
+                        cases_.append((c.oid + "^2", c.parents[1]))
+                for sp, obj in cases_:
+                    if not os.path.exists(os.path.join(gitdir, "objects", c.oid[:2], c.oid[2:])):
+                        continue
+                    r = R.sizer(sz, work, argv + [sp], tmpdir=d)
+                    out["evals"] += 1
+                    if r.rc != 0:
+                        out["viol"].append(("C13/stored-graph/root-through-replaced-object/run-failed", {"root": sp, "stderr": r.err[-300:]}))
+                        continue
+                    jr, _ = P.parse_json(r.out)
+                    exr = O.compute([obj])
+                    bad = O.compare_numeric(exr, jr or {}, [k for k in O.CAPS if k != "reference_count"])
+                    if bad:
+                        out["viol"].append(("C13/stored-graph/root-through-replaced-object/values-differ", {"root": sp, "kind": kind, "diffs": bad[:4]}))
+                    out["root_through"] = out.get("root_through", 0) + 1
         # --- shallow
         if idx % 4 == 0 and len(m.commits) >= 2:
             sh = os.path.join(d, "sh")
@@ -200,6 +230,7 @@ def run(chk, b, tier):
         if r["graft_nontrivial"]:
             chk.bump("repositories_where_git_sees_a_different_graph_through_grafts")
         chk.bump("shallow_cases", r["shallow"])
+        chk.bump("roots_navigating_through_replaced_or_grafted_commits", r.get("root_through", 0))
         if r["sample"]:
             chk.sample(r["sample"], limit=4)
     chk.cov["runs_per_addressing_mode"] = modes
